@@ -54,6 +54,9 @@ func setup(x *explore.X, kind string, plan map[string]simnet.DialPlan, tweak fun
 	if e.mitm {
 		opts.MITM = true
 	}
+	if strings.Contains(kind, "handler-mode") {
+		opts.HTTPHandler = true // the http.Handler variant of the proxy (NewHTTPProxyHandler / TestingHTTPHandler)
+	}
 	if tweak != nil {
 		tweak(&opts)
 	}
@@ -216,7 +219,7 @@ func replyFor(shape string, head bool) h1x.Msg {
 }
 
 func replyCut(x *explore.X) {
-	kind := []string{"GET", "POST", "HEAD", "GET-via-upstream", "GET-inside-MITM"}[x.Choose("kind", 5)]
+	kind := []string{"GET", "POST", "HEAD", "GET-via-upstream", "GET-inside-MITM", "GET-handler-mode"}[x.Choose("kind", 6)]
 	shape := []string{"cl", "chunked", "eof"}[x.ChooseFree("shape", 3)]
 	rst := x.ChooseFree("reset", 2) == 1
 	m := replyFor(shape, false)
@@ -261,8 +264,10 @@ func replyCut(x *explore.X) {
 	rs := httpwire.ParseResponses(stream, e.methods, e.clientEOF())
 	x.Check()
 	originComplete := k == len(wire)
-	if shape == "eof" && kind != "HEAD" && k >= len(head) && !rst {
-		originComplete = true // a connection-delimited body ends where the origin closes
+	if shape == "eof" && kind != "HEAD" && k >= len(head) {
+		// a connection-delimited body ends where the origin closes (FIN); a reset instead of the FIN means the
+		// end of the message was never signalled, however many bytes had arrived
+		originComplete = !rst
 	}
 	if kind == "HEAD" && k >= len(head) {
 		originComplete = true
@@ -313,6 +318,65 @@ func replyCut(x *explore.X) {
 	}
 	probe(x, e.w)
 	x.Outcome(fmt.Sprintf("%s %s msgs=%d state=%s eof=%v", kind, shape, len(rs.Msgs), rs.State, e.clientEOF()))
+	e.finish(x, nh)
+}
+
+// ---- A2: terse but acceptable origin replies -----------------------------------------------------------------
+
+var terseStatusLines = []string{"HTTP/1.1 200", "HTTP/1.1 200 ", "HTTP/1.1 204", "HTTP/1.1 204 ", "HTTP/1.1 304", "HTTP/1.1 304 ", "HTTP/1.0 200", "HTTP/1.1 299", "HTTP/1.1 404", "HTTP/1.1 200 \t", "HTTP/1.1 200 " + strings.Repeat("R", 5000)}
+
+// terseReplies: the origin answers with a status line that has no reason phrase - with or without the space
+// after the code - or an unusually long one; Go's client accepts them all. Whatever the proxy makes of it,
+// the client receives one complete response (the origin's status, or a 5xx of the proxy) and the process lives.
+func terseReplies(x *explore.X) {
+	kind := []string{"GET", "HEAD", "GET-via-upstream", "GET-inside-MITM", "GET-handler-mode"}[x.ChooseFree("kind", 5)]
+	line := terseStatusLines[x.ChooseFree("status-line", len(terseStatusLines))]
+	withLength := x.ChooseFree("content-length-0", 2) == 1
+	e := setup(x, kind, nil, nil)
+	if e == nil {
+		return
+	}
+	var tcfg *tls.Config
+	if e.hopTLS {
+		tcfg = &tls.Config{Certificates: []tls.Certificate{e.pki.Leaf([]string{originHost}, -time.Hour, time.Hour)}}
+	}
+	nh, _ := e.w.Hop(e.hopAddr, tcfg)
+	if !e.sendRequest(x) {
+		return
+	}
+	msgs, conns, _ := nh.Next()
+	if len(msgs) != 1 {
+		x.Failf("harness/not-forwarded", "request not forwarded: %q", world.Clip(e.cl.Recv()))
+		e.finish(x, nh)
+		return
+	}
+	reply := line + "\r\nX-O: 1\r\n"
+	if withLength {
+		reply += "Content-Length: 0\r\n"
+	}
+	reply += "\r\n"
+	oc := nh.Conns[conns[0]]
+	oc.Send([]byte(reply))
+	if !withLength {
+		oc.Close() // a 200 without a length is delimited by the connection
+	}
+	world.Settle(5 * time.Second)
+	what := fmt.Sprintf("%s, origin reply %q (Content-Length: 0: %v)", kind, world.Clip([]byte(line)), withLength)
+	x.Check()
+	stream := e.cl.Recv()
+	rs := httpwire.ParseResponses(stream, e.methods, e.clientEOF())
+	if rs.State == "syntax" || len(rs.Msgs) != 1 {
+		x.Failf("terse-reply/no-complete-response", "%s: the client holds %d complete responses (state %q, %s): %q", what, len(rs.Msgs), rs.State, rs.Err, world.Clip(stream))
+	} else {
+		var code int
+		fmt.Sscanf(strings.SplitN(line, " ", 3)[1], "%d", &code)
+		if got := rs.Msgs[0].Status; got != code && got/100 != 5 {
+			x.Failf("terse-reply/status", "%s: the client received status %d", what, got)
+		}
+	}
+	oc.Close() // (a kept-alive connection to the scripted hop would swallow the probe)
+	probe(x, e.w)
+	x.Outcome(fmt.Sprintf("%s/%d", kind, len(rs.Msgs)))
 	e.finish(x, nh)
 }
 
@@ -649,12 +713,13 @@ func hostileInput(x *explore.X) {
 
 func TestC12(t *testing.T) {
 	s := explore.NewSuite(t, "C12", "fault_enumeration",
-		"(reply-cut) request kind(GET, POST, HEAD, GET via upstream proxy, GET inside MITM) x reply shape(Content-Length, chunked with trailer, connection-delimited) x EVERY cut offset k in [0,len(reply)] x {FIN, RST}; (dial) 8 request kinds x {refused, black-holed until the timeouts expire on the virtual clock}; (tls) MITM GET direct/via upstream x 6 TLS faults of the origin; (connect-reply) client CONNECT / MITM GET / MITM HEAD through an upstream proxy x 8 reply shapes + every cut offset of a 200 reply x {FIN, RST}; (hostile) every single-position mutation of a valid request x 9 classes, oversized heads, binary garbage, h2 preface with SETTINGS, partial TLS hellos on plain/TLS/MITM listeners; after every fault a probe request on a fresh connection must be served; the client's stream is classified by the independent parser: one complete well-formed error response with X-Forwarder-Error, or (after the head was relayed) a truncated message on a closed connection, never a complete-looking truncated one; worker crash = violation; non-trivial = classification made")
+		"(reply-cut) request kind(GET, POST, HEAD, GET via upstream proxy, GET inside MITM) x reply shape(Content-Length, chunked with trailer, connection-delimited) x EVERY cut offset k in [0,len(reply)] x {FIN, RST}; (terse-replies) 5 request kinds x 11 status lines without reason phrase, with and without the space after the code, with a 5000-octet reason x {Content-Length: 0, connection-delimited}: one complete response, the process lives; (dial) 8 request kinds x {refused, black-holed until the timeouts expire on the virtual clock}; (tls) MITM GET direct/via upstream x 6 TLS faults of the origin; (connect-reply) client CONNECT / MITM GET / MITM HEAD through an upstream proxy x 8 reply shapes + every cut offset of a 200 reply x {FIN, RST}; (hostile) every single-position mutation of a valid request x 9 classes, oversized heads, binary garbage, h2 preface with SETTINGS, partial TLS hellos on plain/TLS/MITM listeners; after every fault a probe request on a fresh connection must be served; the client's stream is classified by the independent parser: one complete well-formed error response with X-Forwarder-Error, or (after the head was relayed) a truncated message on a closed connection, never a complete-looking truncated one; worker crash = violation; non-trivial = classification made")
 	s.Assume = []string{"simnet models FIN/RST and dial refusal/black-holing; net.Dialer.Timeout is emulated by simnet with the configured DialTimeout", "the statement is read as: the upstream proxy's own status line for a rejected CONNECT is relayed; for it only well-formedness and the status are required"}
 	run := func(f func(x *explore.X)) func(x *explore.X) {
 		return func(x *explore.X) { world.Run(t, x, func() { f(x) }) }
 	}
 	s.Add(explore.Scenario{Name: "reply-cut", Remote: true, MaxDev: map[string]int{"quick": 1, "thorough": 1}, Run: run(replyCut)})
+	s.Add(explore.Scenario{Name: "terse-replies", Remote: true, Run: run(terseReplies)})
 	s.Add(explore.Scenario{Name: "dial", Remote: true, Run: run(dialFault)})
 	s.Add(explore.Scenario{Name: "tls", Remote: true, Run: run(tlsFault)})
 	s.Add(explore.Scenario{Name: "connect-reply", Remote: true, Run: run(connectReply)})
